@@ -25,9 +25,9 @@ for c in man['checks']:
     st=f"{n(tc.get('states'))} / {n(tc.get('transitions'))}" if tc.get('states') is not None else '–'
     cap='no' if tc.get('exhaustive',True) not in (False,) else 'yes: '+str(tc.get('cap_note',''))[:80]
     kf=(t or q or {}).get('known_findings_observed',[])
-    rows.append(f"| {i} | {c['level']} | {cell(q)} | {cell(t)} | {st} | {cap} | {len(kf)} |")
+    rows.append(f"| {i} | {c['level_claimed']} | {cell(q)} | {cell(t)} | {st} | {cap} | {len(kf)} |")
     rule=(t or q or {}).get('coverage',{}).get('rule','')
-    details.append(f"**{i}** ({c['level']}; {c['technique']}). {rule}\n")
+    details.append(f"**{i}** ({c['level_claimed']}; {c['technique']}). {rule}\n")
 block='\n'.join(rows)+'\n\nWhat each check enumerates and asserts, as written by the check itself into its evidence file:\n\n'+'\n'.join(details)
 s=open(f'{V}/DESIGN.md').read()
 s=re.sub(r'<!-- ASBUILT:BEGIN -->.*?<!-- ASBUILT:END -->', lambda m:'<!-- ASBUILT:BEGIN -->\n'+block+'\n<!-- ASBUILT:END -->', s, flags=re.S)
